@@ -125,8 +125,12 @@ def toZnx64Bnd50 (m divisor : Nat) (x : Array Nat) : Array Int :=
 
 /-- `divisor_bits = divisor * (double)(1<<52)` -/
 def bnd63DiviBits (divisor : Nat) : Nat := mul divisor D_2P52
-/-- `offset = divisor / 2.` -/
-def bnd63Offset (divisor : Nat) : Nat := F64.div divisor D_TWO
+/-- `0.5 - 0x1p-54`, the predecessor of 1/2 (pattern 0x3FDFFFFFFFFFFFFF; the C constant expression is exact) -/
+abbrev D_PRED_HALF : Nat := 4602678819172646911
+/-- repaired kernel (fix of D7): `offset = divisor * (0.5 - 0x1p-54)`, i.e. pred(d/2) for `d = 2^j` -/
+def bnd63Offset (divisor : Nat) : Nat := mul divisor D_PRED_HALF
+/-- the kernel before the fix of D7: `offset = divisor / 2.` -/
+def bnd63OffsetOld (divisor : Nat) : Nat := F64.div divisor D_TWO
 
 /-- one lane of `reim_to_znx64_avx2_bnd63_fma` -/
 def toZnx64Bnd63Lane (offset diviBits x : Nat) : Int :=
@@ -144,6 +148,12 @@ def toZnx64Bnd63Lane (offset diviBits x : Nat) : Int :=
 
 def toZnx64Bnd63 (m divisor : Nat) (x : Array Nat) : Array Int :=
   let off := bnd63Offset divisor
+  let db := bnd63DiviBits divisor
+  chunks 4 (fun i => toZnx64Bnd63Lane off db (x.getD i 0)) (doWhileIters (2 * m) 4)
+
+/-- the vector function before the fix of D7 (kept for the violation theorem and for an unpatched tree) -/
+def toZnx64Bnd63Old (m divisor : Nat) (x : Array Nat) : Array Int :=
+  let off := bnd63OffsetOld divisor
   let db := bnd63DiviBits divisor
   chunks 4 (fun i => toZnx64Bnd63Lane off db (x.getD i 0)) (doWhileIters (2 * m) 4)
 
